@@ -185,9 +185,11 @@ pub fn run(tier: Tier) -> Outcome {
         Tier::Quick => &["A", "B", "C", "D"],
         Tier::Thorough => &["A", "B", "C", "D"],
     };
+    // (world E, 0- and 18-decimal mints funded with tiny balances, exists for the rounding sweeps only: the
+    // lending roots of the round-trip and stale models cannot be built in it)
     let rt_worlds: &[&str] = match tier {
         Tier::Quick => &["A", "B"],
-        Tier::Thorough => &["A", "B", "C", "D", "E"],
+        Tier::Thorough => &["A", "B", "C", "D"],
     };
     let depth = match tier {
         Tier::Quick => 4,
